@@ -71,6 +71,26 @@ DecFrom(ls, k, last) ==
             ELSE DecFrom(ls, k + 1, PathOf(l))
 Decode(s) == IF ~HasNL(s) THEN s ELSE Join(DecFrom(Split(s), 2, <<>>))
 
+(* ---- the same at the level of lines ------------------------------------- *)
+(* A line is [k, v, r]: k = "path" (v is its import path), "ditto", or       *)
+(* "none" (no import path); r is the rest from the last dot on (the whole    *)
+(* line if it has no dot).  The trace module uses this form with interned    *)
+(* strings; AbsCommutes (StackNameMC) ties it to the character level.        *)
+AbsLine(l) == IF LastDot(l) <= 1 THEN [k |-> "none", v |-> <<>>, r |-> l]
+              ELSE IF PathOf(l) = <<Q>> THEN [k |-> "ditto", v |-> <<>>, r |-> RestOf(l)]
+              ELSE [k |-> "path", v |-> PathOf(l), r |-> RestOf(l)]
+Abs(s) == LET ls == Split(s) IN [i \in 1..Len(ls) |-> AbsLine(ls[i])]
+LEq(a, b) == a.k = b.k /\ a.r = b.r /\ (a.k = "path" => a.v = b.v)
+LinesEq(a, b) == Len(a) = Len(b) /\ \A i \in 1..Len(a) : LEq(a[i], b[i])
+RECURSIVE LDecFrom(_, _, _)
+LDecFrom(ls, k, last) ==          \* last: a "path" line, or a "none" line when no path was seen
+  IF k > Len(ls) THEN ls
+  ELSE IF ls[k].k = "ditto"
+       THEN LDecFrom([ls EXCEPT ![k] = [k |-> last.k, v |-> last.v, r |-> ls[k].r]], k + 1, last)
+       ELSE IF ls[k].k = "none" THEN LDecFrom(ls, k + 1, last)
+       ELSE LDecFrom(ls, k + 1, ls[k])
+LDec(ls) == IF Len(ls) <= 1 THEN ls ELSE LDecFrom(ls, 2, [k |-> "none", v |-> ls[1].v, r |-> ls[1].r])
+
 RECURSIVE ToStr(_)
 ToStr(s) == IF s = <<>> THEN "" ELSE s[1] \o ToStr(Tail(s))
 =============================================================================
